@@ -291,7 +291,7 @@ func (in *instr) replaceSeams() {
 		case path == "os/signal" && se.Sel.Name == "Notify":
 			in.site(se.Pos(), "signal")
 			c.Replace(sel("simrt", "SignalNotify"))
-		case path == "os" && in.fsPkg && (se.Sel.Name == "Open" || se.Sel.Name == "Stat" || se.Sel.Name == "File"):
+		case path == "os" && in.fsPkg && (se.Sel.Name == "Open" || se.Sel.Name == "Stat" || se.Sel.Name == "File" || se.Sel.Name == "SameFile"):
 			in.site(se.Pos(), "fs."+se.Sel.Name)
 			c.Replace(sel("simrt", se.Sel.Name))
 		case path == "os" && se.Sel.Name == "Stdin" && in.pkg.PkgPath == "rare/cmd/helpers":
